@@ -1023,6 +1023,11 @@ func (te *TEnv) havocDesignator(m ModItem, st *State) {
 		}
 	case *ECall:
 		switch x.Fn {
+		case "fieldheap":
+			if key := te.fieldHeapKey(x); key != "" {
+				vc.heapHavoc(st, key)
+				return
+			}
 		case "all":
 			tv := te.term(x.Args[0])
 			if p, ok := underNil(tv.gt).(*types.Pointer); ok && tv.gt != nil {
@@ -1133,4 +1138,32 @@ func (te *TEnv) named(tv TV, hint string) TV {
 	}
 	tv.t = te.vc.define(hint, tv.sort, tv.t)
 	return tv
+}
+
+// fieldHeapKey: the heap of fieldheap("pkg.Type", "field") ("" when it does not name a field)
+func (te *TEnv) fieldHeapKey(x *ECall) string {
+	if len(x.Args) != 2 {
+		te.fail("fieldheap needs a type and a field")
+		return ""
+	}
+	ts, ok1 := x.Args[0].(*EStr)
+	fs, ok2 := x.Args[1].(*EStr)
+	if !ok1 || !ok2 {
+		te.fail("fieldheap needs type and field strings")
+		return ""
+	}
+	si := te.vc.eng.types.structInfoOf(te.resolveType(ts.V))
+	if si == nil {
+		te.fail("fieldheap: unknown struct type %q", ts.V)
+		return ""
+	}
+	for i, f := range si.fields {
+		if f.name == fs.V {
+			key := heapKeyField(si, i)
+			te.vc.heapGet(te.st, key, "(Array Int "+f.sort+")")
+			return key
+		}
+	}
+	te.fail("fieldheap: no field %s in %s", fs.V, ts.V)
+	return ""
 }
